@@ -316,6 +316,11 @@ pub fn topo_named(cell: &Cell, name: &str) -> Topo {
         "L3" | "silent-mid" | "every-other" | "dup" | "ecmp" | "refuse" => topo_linear(cell, 3, Target::Answers),
         "L4" => topo_linear(cell, 4, Target::Answers),
         "silent-target" => topo_linear(cell, 3, Target::Silent),
+        "silent-all" => {
+            let mut t = topo_linear(cell, 3, Target::Silent);
+            t.hops.iter_mut().for_each(|h| h.kind = HopKind::Silent);
+            t
+        }
         other => panic!("MACHINERY: unknown topology {other}"),
     };
     match name {
